@@ -204,6 +204,40 @@ def run(chk):
         os.makedirs(lone, exist_ok=True)
         _sh.copy(conv[0][1], os.path.join(lone, "SimulationSummary.json"))
         conv.append(("valid, summary without Gfunction.csv", os.path.join(lone, "SimulationSummary.json")))
+    # option values that merely resemble the supported one
+    for v in (("ID", "DF", "idf") if quick else ("ID", "DF", "I", "idf", "IDFX", "Idf")):
+        if not conv:
+            break
+        sp = conv[0][1]
+        idf = os.path.join(os.path.dirname(sp), "out.idf")
+        if os.path.exists(idf):
+            os.remove(idf)
+        try:
+            code, err = run_cli([sp, "-c", v])
+        except subprocess.TimeoutExpired:
+            code, err = -9, "timeout"
+        chk.cov["evaluations"] += 1
+        nontrivial += 1
+        dist[f"convert {v}/exit{code}"] = 1
+        if (code == 0 or os.path.exists(idf)) and len(chk.violations) < 6:
+            chk.violation("cli", {"label": "valid summary", "flags": f"--convert {v}"}, {"exit": code, "out.idf_written": os.path.exists(idf)},
+                          "exit status non-zero (and nothing converted) for an unsupported --convert option")
+    # the validator asked twice about the same path in one process, the content changed in between
+    vc = [(lab, inst) for lab, inst in cors if section_verdicts(inst) is not None and not all(section_verdicts(inst))][: (3 if quick else 12)]
+    vr = run_impl("validate_drv.py", {"valid": base, "corruptions": [[a_, b_] for a_, b_ in vc]}, timeout=900)
+    if isinstance(vr, dict) and "_error" in vr:
+        chk.broken.append({"name": "validator driver failed", "detail": vr["_error"][-300:]})
+    else:
+        for o in vr:
+            chk.cov["evaluations"] += 4
+            nontrivial += 1
+            (v1, v2), (w1, w2) = o["valid_then_corrupted"], o["corrupted_then_repaired"]
+            good = lambda x: x[0] == 0 and x[1] == 0
+            bad_ = lambda x: x[0] not in (0,) and x[1] not in (0,)
+            if not (good(v1) and bad_(v2) and bad_(w1) and good(w2)) and len(chk.violations) < 6:
+                chk.violation("cli", {"label": o["label"], "flags": "validate twice in one process, file edited in between"},
+                              {"valid_file": v1, "same_path_after_the_corruption": v2, "corrupted_file": w1, "same_path_after_the_repair": w2},
+                              "validation accepts an input exactly when every section satisfies its schema (the content at the time of the call decides)")
     for label, sp in conv:
         idf = os.path.join(os.path.dirname(sp), "out.idf")
         if os.path.exists(idf):
